@@ -26,6 +26,16 @@ CHECKS = {
             "Trusted: the reference normaliser (vp/ref/normaliser.py, self-tested) and CPython re/str. Cases where the "
             "statement admits several readings (classes a-e) are counted and not asserted; carriage returns are outside "
             "the domain."),
+    'C01': ('6.1',
+            "Hypothesis-generated programs (statement grammar x docstring layouts); differential against reference "
+            "execution of the de-prompted program by CPython: trace of executed statements, stdout, bindings, attribution",
+            "Tens of thousands of generated programs (about 55 statement kinds: compound, decorated, multi-line, async, "
+            "comments, unprefixed string lines) in random prompt styles, indentations (incl. tabs), want placements and "
+            "separators are run by xdoctest and by CPython; every statement must run exactly once, in order, with the "
+            "same stdout and final bindings. Randomised exploration with shrinking; unbounded input space, so sampled.",
+            "Trusted: CPython compile/exec as ground truth, the generator's bookkeeping (self-tested per statement kind). "
+            "The REPL echo of a value-bearing expression followed by a want is accepted either way. Inline directives "
+            "are C04's domain."),
 }
 
 NOT_BUILT_REASON = 'check under construction in this round: not claimed until it has been built and run against its mutants'
